@@ -9,7 +9,8 @@ THEOREMS = ["C08_lookup", "C08_lookup_unique", "C08_isolated_symbol", "C08_isola
             "C08_visible_here", "C08_export", "C08_wf_update", "C08_wf_append", "C08_dict_wf",
             "C08_replay", "C08_replay_initial", "C08_pass_moves",
             "C08_noninterference", "C08_noninterference_labels", "C08_zderived", "C08_renaming",
-            "C08_noninterference_program", "C08_renaming_program_partial"]
+            "C08_noninterference_program", "C08_renaming_program_partial",
+            "C08_passes_code_blind", "C08_noninterference_program_full", "C08_renaming_program"]
 RULE = ("generated nestings of blocks, named scopes, macro applications and loops with backward/forward/shadowing/"
         "sibling-reuse placements, plus the full shadowing matrix (outer definition x container x inner definition x reference form, width-inferred operands included); metamorphic twins: consistent renaming of a label, insertion of an unrelated definition "
         "inside another scope (output must not change); out-of-scope references (must be rejected); references to "
@@ -25,14 +26,14 @@ PROVED_NOTE = ("proved: value_for = innermost enclosing definition (function vs 
                "consistent renaming: renaming a name to a fresh one throughout (definitions, identifiers, qualified scope.name uses) "
                "leaves blocks and error kind unchanged and renames the label keys (simulation with an injective key map). Both "
                "relational theorems are proved for node lists AND lifted through code generation to whole programs (assemble_ast): "
-               "insertions of definitions anywhere in the statement tree (any depth, any number; not inside a code-block argument), "
-               "renaming throughout the program (code-block arguments must not mention the renamed name: partial there). "
+               "insertions of definitions anywhere in the statement tree (any depth, any number, code-block arguments included), "
+               "renaming throughout the program (code-block arguments included; the passes are proved blind to stored code blocks). "
                "Correspondence-only: that codegen.py / nodes.py / symbols.py compute what the model computes (twins + ASM tie).")
 MANIFEST = {
     "text": ("Coq theorems over the Gallina model of Scope.value_for / add_symbol / restore_scope(exports) (all scope trees); "
              "model of the whole assembler tied to the code by differential runs; oracles on the implementation: renamed and "
              "insertion twins give identical blocks, out-of-scope references are rejected, scope.name references equal the label."),
-    "note": ("Rename and insertion invariance are proved at node-list and program level; partial only for names occurring inside code-block arguments. Trusted: Coq kernel/vm_compute, harness, table translator. No axioms."),
+    "note": ("Rename and insertion invariance are proved at node-list and program level. Trusted: Coq kernel/vm_compute, harness, table translator. No axioms."),
     "technique": "Coq proof (lookup/isolation/export) + differential correspondence + metamorphic twins",
 }
 
